@@ -218,16 +218,182 @@ func keys(m map[string][]string) []string {
 	return out
 }
 
+// exhaustiveC20 enumerates, deterministically, every symbol of the store (incl. single-level and nested map elements)
+// in every syntactic position of a one-atom query, once with everything public and once with exactly that symbol
+// non-public. It complements the random part, whose deep positions depend on the draw.
+func exhaustiveC20(yield func(c c20Case) bool) {
+	type pos struct {
+		name string
+		mk   func(sym string) (kit.QuerySpec, bool)
+	}
+	str := kit.SV("a")
+	one := kit.IV(1)
+	atom := func(e *kit.Expr) (kit.QuerySpec, bool) { return kit.QuerySpec{Kind: "people", Pred: e}, true }
+	scalar := map[string]string{"sa": "s", "sb": "s", "ia": "i", "ib": "i", "fa": "f", "ba": "b", "ta": "t", "boss": "s", "home": "s", "tags.k": "any", "tags.sub.k": "any", "tags.sub.n": "any"}
+	sets := map[string]bool{"roles": true, "nums": true, "places": true, "peers": true}
+	positions := []pos{
+		{"cmp", func(sym string) (kit.QuerySpec, bool) {
+			k, ok := scalar[sym]
+			if !ok {
+				return kit.QuerySpec{}, false
+			}
+			c := str
+			switch k {
+			case "i", "f":
+				c = one
+			case "b":
+				c = kit.BV(true)
+			case "t":
+				c = kit.TV(kit.UTime[0])
+			}
+			return atom(&kit.Expr{Op: "cmp", Cmp: "=", L: &kit.LHS{Sym: sym}, C: []kit.Val{c}})
+		}},
+		{"isnull", func(sym string) (kit.QuerySpec, bool) {
+			if _, ok := scalar[sym]; !ok {
+				return kit.QuerySpec{}, false
+			}
+			return atom(&kit.Expr{Op: "isnull", L: &kit.LHS{Sym: sym}, Neg: true})
+		}},
+		{"in", func(sym string) (kit.QuerySpec, bool) {
+			if k := scalar[sym]; k != "s" && k != "any" {
+				return kit.QuerySpec{}, false
+			}
+			return atom(&kit.Expr{Op: "in", L: &kit.LHS{Sym: sym}, C: []kit.Val{str, kit.SV("b")}})
+		}},
+		{"between", func(sym string) (kit.QuerySpec, bool) {
+			if k := scalar[sym]; k != "i" && k != "f" {
+				return kit.QuerySpec{}, false
+			}
+			return atom(&kit.Expr{Op: "between", Neg: true, L: &kit.LHS{Sym: sym}, C: []kit.Val{one, kit.IV(3)}})
+		}},
+		{"contains", func(sym string) (kit.QuerySpec, bool) {
+			if k := scalar[sym]; k != "s" && k != "any" {
+				return kit.QuerySpec{}, false
+			}
+			return atom(&kit.Expr{Op: "contains", ICase: true, L: &kit.LHS{Sym: sym}, C: []kit.Val{str}})
+		}},
+		{"boolsym", func(sym string) (kit.QuerySpec, bool) {
+			if sym != "ba" {
+				return kit.QuerySpec{}, false
+			}
+			return atom(&kit.Expr{Op: "boolsym", L: &kit.LHS{Sym: sym}})
+		}},
+		{"anyOf", func(sym string) (kit.QuerySpec, bool) {
+			if !sets[sym] {
+				return kit.QuerySpec{}, false
+			}
+			return atom(&kit.Expr{Op: "cmp", Cmp: "=", L: &kit.LHS{Fn: "anyOf", Sym: sym}, C: []kit.Val{str}})
+		}},
+		{"allOf-in", func(sym string) (kit.QuerySpec, bool) {
+			if !sets[sym] {
+				return kit.QuerySpec{}, false
+			}
+			return atom(&kit.Expr{Op: "in", L: &kit.LHS{Fn: "allOf", Sym: sym}, C: []kit.Val{str}})
+		}},
+		{"count", func(sym string) (kit.QuerySpec, bool) {
+			if !sets[sym] {
+				return kit.QuerySpec{}, false
+			}
+			return atom(&kit.Expr{Op: "cmp", Cmp: ">", L: &kit.LHS{Fn: "count", Sym: sym}, C: []kit.Val{one}})
+		}},
+		{"isEmpty", func(sym string) (kit.QuerySpec, bool) {
+			if !sets[sym] {
+				return kit.QuerySpec{}, false
+			}
+			return atom(&kit.Expr{Op: "isempty", L: &kit.LHS{Sym: sym}})
+		}},
+		{"sub-query-link", func(sym string) (kit.QuerySpec, bool) {
+			if sym != "peers" {
+				return kit.QuerySpec{}, false
+			}
+			return atom(&kit.Expr{Op: "isempty", L: &kit.LHS{Sym: sym, Sub: &kit.Expr{Op: "true"}}})
+		}},
+		{"inside-count-sub-query", func(sym string) (kit.QuerySpec, bool) {
+			q, ok := kit.QuerySpec{}, false
+			if k, isScalar := scalar[sym]; isScalar && (k == "s" || k == "any") {
+				inner := &kit.Expr{Op: "cmp", Cmp: "=", L: &kit.LHS{Sym: sym}, C: []kit.Val{str}}
+				q, ok = atom(&kit.Expr{Op: "cmp", Cmp: ">=", L: &kit.LHS{Fn: "count", Sym: "peers", Sub: inner}, C: []kit.Val{one}})
+			}
+			return q, ok
+		}},
+		{"inside-isEmpty-sub-query", func(sym string) (kit.QuerySpec, bool) {
+			if !sets[sym] {
+				return kit.QuerySpec{}, false
+			}
+			inner := &kit.Expr{Op: "not", Kids: []*kit.Expr{{Op: "isempty", L: &kit.LHS{Sym: sym}}}}
+			return atom(&kit.Expr{Op: "isempty", L: &kit.LHS{Sym: "peers", Sub: inner}})
+		}},
+		{"nested-connectives", func(sym string) (kit.QuerySpec, bool) {
+			if k := scalar[sym]; k != "s" && k != "any" {
+				return kit.QuerySpec{}, false
+			}
+			deep := &kit.Expr{Op: "cmp", Cmp: "!=", L: &kit.LHS{Sym: sym}, C: []kit.Val{str}}
+			e := &kit.Expr{Op: "or", Kids: []*kit.Expr{{Op: "true"}, {Op: "and", Kids: []*kit.Expr{{Op: "false"}, {Op: "not", Kids: []*kit.Expr{deep}}}}}}
+			return atom(e)
+		}},
+		{"sort", func(sym string) (kit.QuerySpec, bool) {
+			k, ok := scalar[sym]
+			if !ok || k == "any" {
+				return kit.QuerySpec{}, false
+			}
+			return kit.QuerySpec{Kind: "people", Pred: &kit.Expr{Op: "true"}, Sort: []kit.SortKey{{Sym: "id"}, {Sym: sym, Desc: true, Dir: "desc"}}}, true
+		}},
+		{"sort-only", func(sym string) (kit.QuerySpec, bool) {
+			k, ok := scalar[sym]
+			if !ok || k == "any" {
+				return kit.QuerySpec{}, false
+			}
+			lim := int64(3)
+			return kit.QuerySpec{Kind: "people", Sort: []kit.SortKey{{Sym: sym}}, Page: kit.Paging{Limit: &lim}}, true
+		}},
+	}
+	var syms []string
+	for s := range scalar {
+		syms = append(syms, s)
+	}
+	for s := range sets {
+		syms = append(syms, s)
+	}
+	sort.Strings(syms)
+	for _, sym := range syms {
+		for _, p := range positions {
+			q, ok := p.mk(sym)
+			if !ok {
+				continue
+			}
+			for _, nonPublic := range []bool{false, true} {
+				c := c20Case{Public: map[string]bool{}, Query: q}
+				for _, s := range c20Symbols {
+					c.Public[s] = true
+				}
+				if nonPublic {
+					base := sym
+					if strings.HasPrefix(sym, "tags.") {
+						base = "tags"
+					}
+					c.Public[base] = false
+				}
+				if !yield(c) {
+					return
+				}
+			}
+		}
+	}
+}
+
 func TestC20(t *testing.T) {
 	kit.Execute(t, kit.Spec[c20Case]{
 		ID:    "C20",
 		Level: "exploration",
 		Rule: "rapid draws a public/non-public assignment for the 14 symbols of a store (scalars, fk, sets, fk sets with a self-link, map) with 0-3 non-public ones and a typed query from the C01 generator (all atom kinds incl. set functions, in/between/contains/icontains, null tests, map elements, count/isEmpty sub-queries over the self-link) plus 0-3 sort fields. " +
 			"ValidateSymbolsArePublic must accept iff every referenced symbol is public (reference set computed from the generated AST) and otherwise return an UnknownSymbolError naming a referenced non-public symbol. " +
-			"Non-trivial: the query references >= 2 symbols of which exactly one is non-public. Distinct by hash of the case JSON; the classes histogram counts every syntactic position of a referenced / non-public symbol.",
+			"Exhaustive part: every symbol of the store (scalars, fk, sets, single-level and nested map elements) x every syntactic position of a small query (comparison, null test, in, between, icontains, bare bool symbol, anyOf, allOf..in, count, isEmpty, sub-query link, inside count/isEmpty sub-queries, under nested connectives, sort field with and without predicate) x {all public, that symbol non-public}. " +
+			"Non-trivial: the query references >= 2 symbols of which exactly one is non-public, or (exhaustive part) the single referenced symbol is non-public. Distinct by hash of the case JSON; the classes histogram counts every syntactic position of a referenced / non-public symbol.",
 		Assumptions: []string{"dotted linked symbols (boss.sa) are not generated: the property defines publicity only for plain symbols and map elements",
 			"sub-queries range over a link set pointing back at the same store, so that 'public for the store' is unambiguous inside the sub-query"},
 		Gen: genC20, Run: runC20,
 		QuickChecks: 20000, ThoroughFactor: 20,
+		ExhaustiveQuick: exhaustiveC20,
+		Exhaustive:      exhaustiveC20,
 	})
 }
